@@ -162,6 +162,8 @@ type RunCfg struct {
 	// the key map is partly pre-defined by the caller with a gap (first variable key 1, second key 3); the others
 	// are registered by GetOrRegisterKey and must get keys nobody owns
 	KeyGap bool
+	// operators registered under built-in names (+, eq, not): the built-in must win everywhere, at compile time and at run time
+	Shadow bool
 }
 
 func (rc *RunCfg) Coq() string {
@@ -192,6 +194,9 @@ func (rc *RunCfg) Describe() string {
 	if rc.KeyGap {
 		d += " keymap-predefined-with-gap"
 	}
+	if rc.Shadow {
+		d += " operators-registered-under-builtin-names(+,eq,not,in,and)"
+	}
 	if rc.Sibling != nil {
 		d += fmt.Sprintf(" derived(base declares the first %d, viaCopy=%v, a sibling derived from the same base declares %v)", rc.BaseCut, rc.ViaCopy, rc.Sibling)
 	}
@@ -221,6 +226,11 @@ func (rc *RunCfg) Build() *Built {
 				rf.Rec.Log = append(rf.Rec.Log, o)
 			}
 			return v, err
+		}
+	}
+	if rc.Shadow {
+		for _, nme := range []string{"+", "eq", "not", "in", "and"} {
+			conf.OperatorMap[nme] = func(ctx *eval.Ctx, params []eval.Value) (eval.Value, error) { return int64(424242), nil }
 		}
 	}
 	for k, v := range rc.Opts {
